@@ -33,4 +33,83 @@ theorem C10.reads_removable (n : Node) (reads : List (List String × List Ev)) :
   | nil => rfl
   | cons r rs ih => simpa [List.foldl, C10.read_is_identity] using ih
 
+/-! ### Whole histories
+
+The statements above are about one read step.  The property speaks about histories: "a history with arbitrary read
+requests interleaved produces exactly the same results, and the same database contents after commit, as the history
+without them".  `DriverE.step` is the model's transition function on protocol lines (the function the compiled
+driver folds over its input, and the one whose answers are compared with the real engine line by line). -/
+
+/-- the operation word of a protocol line, as `DriverE.step` reads it -/
+def DriverE.opOf (line : String) : String :=
+  ((((line.splitOn " ## ").headD "").trimAscii.toString.splitOn " ").filter (· ≠ "")).headD ""
+
+def DriverE.isRead (line : String) : Bool := DriverE.opOf line == "read" || DriverE.opOf line == "logsq"
+
+/-- run a history: final node and the answers, in order -/
+def DriverE.run : Node → List String → Node × List String
+  | n, [] => (n, [])
+  | n, l :: ls =>
+    let r := DriverE.step n l
+    let rest := DriverE.run r.1 ls
+    (rest.1, r.2 :: rest.2)
+
+/-- a read line (any `read` kind, any recorded events, or a log query) leaves the node as it was -/
+theorem C10.step_read_node (n : Node) (line : String) (h : DriverE.isRead line = true) :
+    (DriverE.step n line).1 = n := by
+  unfold DriverE.isRead DriverE.opOf at h
+  simp only [Bool.or_eq_true, beq_iff_eq] at h
+  unfold DriverE.step
+  rcases h with h | h <;> simp only [h] <;> rfl
+
+/-- answers of the non-read lines of a history, in order -/
+def DriverE.writeAnswers : Node → List String → List String
+  | _, [] => []
+  | n, l :: ls =>
+    let r := DriverE.step n l
+    if DriverE.isRead l then DriverE.writeAnswers r.1 ls else r.2 :: DriverE.writeAnswers r.1 ls
+
+/-- **Reads can be interleaved anywhere in any history**: the history with every read line removed ends in the same
+node (hence the same database contents after a commit, and the same digest) and gives every indexer call the same
+answer as the history with the reads in place. -/
+theorem C10.history_reads_removable (lines : List String) :
+    ∀ n : Node,
+      (DriverE.run n (lines.filter (fun l => !DriverE.isRead l))).1 = (DriverE.run n lines).1 ∧
+      (DriverE.run n (lines.filter (fun l => !DriverE.isRead l))).2 = DriverE.writeAnswers n lines := by
+  induction lines with
+  | nil => intro n; exact ⟨rfl, rfl⟩
+  | cons l ls ih =>
+    intro n
+    by_cases hr : DriverE.isRead l = true
+    · have hn := C10.step_read_node n l hr
+      simp only [List.filter_cons, hr, Bool.not_true, Bool.false_eq_true, if_false, DriverE.run, DriverE.writeAnswers, if_true, hn]
+      exact ih n
+    · have hr' : DriverE.isRead l = false := by simpa using hr
+      simp only [List.filter_cons, hr', Bool.not_false, if_true, DriverE.run, DriverE.writeAnswers, Bool.false_eq_true, if_false]
+      have := ih (DriverE.step n l).1
+      exact ⟨this.1, by rw [this.2]⟩
+
+/-- and the answers of the write lines are the answers they get in the full history (same positions) -/
+theorem C10.writeAnswers_eq_filter (lines : List String) :
+    ∀ n : Node, DriverE.writeAnswers n lines =
+      ((lines.zip (DriverE.run n lines).2).filter (fun p => !DriverE.isRead p.1)).map (·.2) := by
+  induction lines with
+  | nil => intro n; rfl
+  | cons l ls ih =>
+    intro n
+    by_cases hr : DriverE.isRead l = true
+    · simp only [DriverE.writeAnswers, hr, if_true, DriverE.run, List.zip_cons_cons, List.filter_cons, Bool.not_true,
+        Bool.false_eq_true, if_false]
+      exact ih _
+    · have hr' : DriverE.isRead l = false := by simpa using hr
+      simp only [DriverE.writeAnswers, hr', Bool.false_eq_true, if_false, DriverE.run, List.zip_cons_cons, List.filter_cons,
+        Bool.not_false, if_true, List.map_cons]
+      rw [ih]
+
+-- non-vacuity (evaluated, a test: string functions do not reduce in the kernel): a read line with recorded events
+-- is a read; an indexer call is not
+#guard DriverE.isRead "read kind=callmany ncalls=2 ## X simmulti caller=aa nonce=0 | ok success=true" = true
+#guard DriverE.isRead "logsq latest=3 from=1 to=2 addr=- topics=none all=-" = true
+#guard DriverE.isRead "fin ts=1 hash=0x00 count=0" = false
+
 end Brc20
